@@ -227,13 +227,12 @@ FoldTxs(S, txs, i, cd, sn, post, drift, pth) ==
                   IF st.drift # "" /\ drift = "" THEN st.drift ELSE drift,
                   IF st.S = S THEN pth ELSE Append(pth, st.S))
 
-\* the claim step stores the attempt counter it read earlier; the counter is advisory and
-\* outside every listed property, so task rows are compared modulo attempt when they
-\* were claimed or swept in this commit
+\* the claim step stores the attempt counter it read earlier (it may have read it before a failed hand-off of the same
+\* batch raised it, and a completion of the same batch may follow); the counter is advisory and outside every listed
+\* property, so task rows are compared modulo attempt
 NormAttempt(S, obs) ==
   [S EXCEPT !.tasks = [x \in DOMAIN @ |->
-      IF Has(obs.tasks, x) /\ @[x].state \in {T_CLAIMED, T_TIMEDOUT}
-      THEN [@[x] EXCEPT !.attempt = obs.tasks[x].attempt] ELSE @[x]]]
+      IF Has(obs.tasks, x) THEN [@[x] EXCEPT !.attempt = obs.tasks[x].attempt] ELSE @[x]]]
 
 DiffTables(E, O) == {tb \in Tables : E[tb] # O[tb]}
 
